@@ -545,3 +545,14 @@ V("c17-lower-skips-unify", "C17", "R17.3", "dask_array/_blockwise.py",
 
 V("c07-fusion-visits-deps-in-hash-order", "C07", "R07.1", "dask_array/_blockwise.py",
   "                for dep_name in sorted(dependencies.get(node._name, ())):", "                for dep_name in dependencies.get(node._name, set()):", expect="_fusion_pass::set-order")
+
+V("c07-kwargs-order-frozen-into-token", "C07", "R07.1", "dask_array/_blockwise.py",
+  "                *args_token,\n                **kwargs_token,\n            )", "                *args_token,\n                tuple(kwargs_token.items()),\n            )", expect="Blockwise.__dask_tokenize__::mapping-order")
+V("c07-twin-kwargs-sorted-items", "C07", "-", "dask_array/_blockwise.py",
+  "                *args_token,\n                **kwargs_token,\n            )", "                *args_token,\n                tuple(sorted(kwargs_token.items())),\n            )", twin=True)
+V("c07-main-callables-by-reference", "C07", "R07.8", "dask_array/_dispatch.py",
+  "    if module == \"__main__\":\n        return None\n", "", expect="_importable_ref")
+V("c07-locals-by-reference", "C07", "R07.8", "dask_array/_dispatch.py",
+  "    if \"<\" in qualname:\n        return None\n", "", expect="_importable_ref")
+V("c07-new-pickle-name", "C07", "R07.1", "dask_array/_rechunk.py",
+  "        return \"rechunk-p2p-\" + tokenize(*self.operands)", "        import pickle\n\n        return \"rechunk-p2p-\" + hash_buffer_hex(pickle.dumps(tuple(self.operands)))", expect="P2PRechunk._name::pickle")
